@@ -105,6 +105,41 @@ pub fn run() -> (u64, Vec<Violation>) {
             }
         }
     }
+    // character types (outside `Ty`): a CHAR / WCHAR located at %I / %M keeps its tag through the latch
+    for area in ["I", "M"] {
+        for (tname, tag, size) in [("CHAR", "Char", "B"), ("WCHAR", "WChar", "W")] {
+            let addr = address(area, size, false);
+            let text = format!("TYPE Rec : STRUCT tag : {tname}; n : INT; END_STRUCT END_TYPE\nPROGRAM Main\nVAR\n    b AT {addr} : {tname};\n    c : {tname};\n    k : DINT;\nEND_VAR\n    c := b;\n    k := k + DINT#1;\nEND_PROGRAM\n");
+            for (vname, value) in [("Byte", Value::Byte(65)), ("Word", Value::Word(66))] {
+                n += 1;
+                let r = catch(|| {
+                    let mut h = match TestHarness::from_source(&text) {
+                        Ok(h) => h,
+                        Err(e) => return Err(e.to_string()),
+                    };
+                    let wrote = h.set_direct_input(&addr, value.clone()).is_ok();
+                    let r1 = h.cycle();
+                    Ok((wrote, r1.errors.len(), crate::dump::dump_runtime(h.runtime())))
+                });
+                let Ok(Ok((wrote, errs, dump))) = r else { continue };
+                if wrote && errs == 0 {
+                    latched_ok += 1;
+                }
+                for path in ["Main.b", "Main.c"] {
+                    let leaf = dump.get(path).cloned().unwrap_or_default();
+                    let (got, _) = super::run::parse_leaf(&leaf);
+                    if got != tag {
+                        out.push(Violation {
+                            signature: format!("C03/tag/io-latch:%{area}:flat:{tname}<-{got}"),
+                            what: format!("{path} declared {tname} AT {addr} holds {leaf} after the image was written with {vname} (write accepted: {wrote}, cycle errors {errs})"),
+                            case: json!({"kind": "io-latch", "addr": addr, "type": tname, "value": vname}),
+                        });
+                        break;
+                    }
+                }
+            }
+        }
+    }
     if latched_ok == 0 {
         out.push(Violation { signature: "C03/machinery/io-latch".into(), what: "no write was ever latched without a fault: family vacuous".into(), case: json!({}) });
     }
